@@ -250,6 +250,23 @@ CHECKS["C10"] = dict(
     design="5/C10",
 )
 
+CHECKS["C13"] = dict(
+    text="Proved for EVERY container and style: delete-existing-then-append keeps a container free of homonyms with the new style there exactly once and "
+    "every other style in place, in order (insert_keeps_unique); the container's lookup finds exactly the inserted style (found_in_container); an accepted "
+    "insertion changes exactly one container (insert_touches_one_container), the one required by family and kind (place_table, decide over the generated family "
+    "list); for every family and kind accepted, that container is one the lookup searches (placed_container_is_searched, decide over CONTEXT_MAPPING "
+    "REGENERATED from styles.py at each run); the document lookup finds the inserted style when no earlier-searched container holds a homonym "
+    "(found_in_document_partial); generated automatic names are fresh among the automatic styles of the family (automatic_name_is_fresh); a merged style "
+    "replaces its homonym in its container and is found there (merge_one_lands). Correspondence: ~2500 insert / get / merge requests per quick run, model "
+    "state = implementation state read by XPath. Oracle: container, uniqueness, name returned, others untouched, lookup (also after save + reload), bursts of "
+    "unnamed automatic styles, merge union + source unchanged, add_page_break_style, set_table_displayed, delete_styles.",
+    note="PARTIAL for the document-wide lookup: a style inserted while a homonym exists in a container searched earlier is not the one get_style returns "
+    "(known finding C13-F2, reported at every run; theorem found_in_document_partial states the hypothesis). Styles are abstracted to (kind, family, name, body "
+    "id); draw:gradient / hatch / ... are not styles for the style API and are ignored.",
+    technique="Lean 4 theorems (list lemmas on delete-then-append, decide over tables regenerated from the source) + differential correspondence + XPath oracle",
+    design="5/C13",
+)
+
 NOT_YET = {}
 
 
